@@ -170,3 +170,49 @@ def n_inits_norm(init_search_fn):
         raise Untranslatable(f"init_search: n_inits_norm expression `{s}`")
     return ("/-- `self.n_inits_norm` as Python computes it (an int that may be negative) -/\n"
             "def n_inits_norm (c : Call) (d : DState σ) : Int := " + ex(hits[0].value))
+
+
+def stop_construction(init_search_fn, stoprun_init):
+    """`self.stop = StopRun(start_time, self.max_time, self.max_score, self.early_stopping)`: which criterion of the call ends up in which
+    field of the stop object - by NAME through `init_search`'s assignments, the constructor call and `StopRun.__init__`"""
+    params = [a.arg for a in init_search_fn.args.args]
+    assigns = {}
+    for st in init_search_fn.body:
+        if isinstance(st, ast.Assign) and len(st.targets) == 1 and _u(st.targets[0]).startswith("self.") and isinstance(st.value, ast.Name) \
+                and st.value.id in params:
+            assigns[_u(st.targets[0])] = st.value.id
+    for attr in ("self.max_time", "self.max_score", "self.early_stopping", "self.n_iter", "self.memory", "self.memory_warm_start"):
+        if assigns.get(attr) != attr[5:]:
+            raise Untranslatable(f"init_search: `{attr}` is assigned from `{assigns.get(attr)}`")
+    body = [_u(x) for x in init_search_fn.body]
+    if "start_time = time.time()" not in body:
+        raise Untranslatable("init_search: start_time")
+    calls = [st for st in init_search_fn.body if isinstance(st, ast.Assign) and _u(st.targets[0]) == "self.stop"]
+    if len(calls) != 1 or not isinstance(calls[0].value, ast.Call) or _u(calls[0].value.func) != "StopRun" or calls[0].value.keywords:
+        raise Untranslatable("init_search: StopRun construction")
+    args = [_u(a) for a in calls[0].value.args]
+    iparams = [a.arg for a in stoprun_init.args.args][1:]
+    if len(args) != len(iparams):
+        raise Untranslatable("StopRun(...): arity")
+    ibody = {}
+    for st in stoprun_init.body:
+        if isinstance(st, ast.Assign) and _u(st.targets[0]).startswith("self.") and isinstance(st.value, ast.Name):
+            ibody[_u(st.targets[0])[5:]] = st.value.id
+    src = {"start_time": "d.clock", "self.max_time": "c.maxTime", "self.max_score": "c.maxScore", "self.early_stopping": "c.early"}
+    field = {"start_time": "startTime", "max_time": "maxTime", "max_score": "maxScore", "early_stopping": "early"}
+    out = []
+    for attr, fld in field.items():
+        p = ibody.get(attr)
+        if p not in iparams:
+            raise Untranslatable(f"StopRun.__init__: self.{attr} = {p}")
+        a = args[iparams.index(p)]
+        if a not in src:
+            raise Untranslatable(f"StopRun(...): argument `{a}`")
+        out.append(f"{fld} := {src[a]}")
+    pb = [st for st in init_search_fn.body if isinstance(st, ast.If) and "ProgressBarLVL" in _u(st)]
+    want_pb = ("if 'progress_bar' in self.verbosity:\n    self.p_bar = ProgressBarLVL1(self.nth_process, self.n_iter, self.objective_function)\n"
+               "else:\n    self.p_bar = ProgressBarLVL0(self.nth_process, self.n_iter, self.objective_function)")
+    if len(pb) != 1 or _u(pb[0]) != want_pb:
+        raise Untranslatable("init_search: progress-bar selection changed")
+    return ("/-- the stop object `init_search` constructs: each criterion of the call lands in the field of its own name -/\n"
+            "def stop_object (c : Call) (d : DState σ) : StopCfg := { " + ", ".join(out) + " }")
